@@ -259,6 +259,7 @@ Definition tag_step (ops : list op) (prev : obs) (o : op) (cur : obs) : list N :
     | ODies _ => 128
     | OFail _ => 512
     | ORecon => 1024
+    | ORefuse _ => 2048
     | _ => 0
     end ].
 
